@@ -152,6 +152,147 @@ Proof.
   intros H. apply (G [] (fun x F => match F with end) blocks (incl_refl _) H).
 Qed.
 
+(* ---- MatchList::add with bases, snippets ---- *)
+Lemma bmatch_eta : forall m : bmatch, (b_base m, b_start m, b_end m) = m.
+Proof. intros [[a b] c]. reflexivity. Qed.
+
+(* GENERATED: both same-start arms move the base together with the end, so the
+   listed match is always one of the matches that were added, as a whole *)
+Lemma add_b_in : forall r m l x, In x (add_b r m l) -> x = m \/ In x l.
+Proof.
+  intros r m l. induction l as [|y t IH]; intros x H; cbn [add_b] in H.
+  - destruct H as [H|[]]. left. symmetry. exact H.
+  - destruct (b_start m <? b_start y).
+    + destruct H as [H|H]; [left; symmetry; exact H|right; exact H].
+    + destruct (b_start m =? b_start y) eqn:E.
+      * apply N.eqb_eq in E.
+        change ml_tail_arm_moves_base with true in H. change ml_search_arm_moves_base with true in H. cbv iota in H.
+        destruct t as [|z t'].
+        -- destruct H as [H|[]]. destruct r; [|right; left; exact H].
+           left. rewrite <- H, <- E. apply bmatch_eta.
+        -- destruct H as [H|H]; [|right; right; exact H].
+           destruct (r && (b_end y <? b_end m)); [|right; left; exact H].
+           left. rewrite <- H, <- E. apply bmatch_eta.
+      * destruct H as [H|H]; [right; left; exact H|].
+        destruct (IH _ H) as [A|A]; [left; exact A|right; right; exact A].
+Qed.
+
+Definition in_block (blk : N * N) (m : bmatch) : Prop :=
+  b_base m = fst blk /\ fst blk <= b_start m /\ b_start m <= b_end m /\ b_end m <= fst blk + snd blk.
+
+Lemma fold_add_b_in : forall (blk : N * N) (fs : list (N * N * bool)) ms x,
+  In x (fold_left (fun acc f => add_b (snd f) (fst blk, fst (fst f), snd (fst f)) acc) fs ms) ->
+  In x ms \/ exists f : N * N * bool, In f fs /\ x = (fst blk, fst (fst f), snd (fst f)).
+Proof.
+  intros blk fs. induction fs as [|f r IH]; intros ms x H; cbn [fold_left] in H.
+  - left. exact H.
+  - destruct (IH _ _ H) as [A|(g & G & E)].
+    + destruct (add_b_in _ _ _ _ A) as [B|B]; [right; exists f; split; [left; reflexivity|exact B]|left; exact B].
+    + right. exists g. split; [right; exact G|exact E].
+Qed.
+
+Lemma put_snippet_mono : forall s l s0, In s0 l ->
+  exists s1, In s1 (put_snippet s l) /\ fst s1 = fst s0 /\ snd s0 <= snd s1.
+Proof.
+  intros s l. induction l as [|x r IH]; intros s0 H; [contradiction|]. cbn [put_snippet].
+  destruct (fst x =? fst s) eqn:E.
+  - destruct H as [H|H].
+    + subst s0. destruct (snd x <? snd s) eqn:L.
+      * exists s. apply N.eqb_eq in E. apply N.ltb_lt in L. split; [left; reflexivity|split; [symmetry; exact E|lia]].
+      * exists x. split; [left; reflexivity|split; [reflexivity|lia]].
+    + exists s0. split; [right; exact H|split; [reflexivity|lia]].
+  - destruct H as [H|H].
+    + subst s0. exists x. split; [left; reflexivity|split; [reflexivity|lia]].
+    + destruct (IH _ H) as (s1 & A & B & C). exists s1. split; [right; exact A|split; assumption].
+Qed.
+
+Lemma put_snippet_has : forall s l, exists s1, In s1 (put_snippet s l) /\ fst s1 = fst s /\ snd s <= snd s1.
+Proof.
+  intros s l. induction l as [|x r IH]; cbn [put_snippet].
+  - exists s. split; [left; reflexivity|split; [reflexivity|lia]].
+  - destruct (fst x =? fst s) eqn:E.
+    + destruct (snd x <? snd s) eqn:L.
+      * exists s. split; [left; reflexivity|split; [reflexivity|lia]].
+      * exists x. apply N.eqb_eq in E. apply N.ltb_ge in L. split; [left; reflexivity|split; [exact E|exact L]].
+    + destruct IH as (s1 & A & B & C). exists s1. split; [right; exact A|split; assumption].
+Qed.
+
+Lemma covers_mono : forall s0 s1 m, covers s0 m = true -> fst s1 = fst s0 -> snd s0 <= snd s1 -> covers s1 m = true.
+Proof.
+  intros s0 s1 m C E L. unfold covers in *. apply andb_true_iff in C. destruct C as [A B].
+  apply N.leb_le in A, B. apply andb_true_iff. split; apply N.leb_le; lia.
+Qed.
+
+Lemma collect_mono : forall ctx blk ms snips s0, In s0 snips ->
+  exists s1, In s1 (collect_snippets ctx blk ms snips) /\ fst s1 = fst s0 /\ snd s0 <= snd s1.
+Proof.
+  intros ctx blk ms. unfold collect_snippets. induction ms as [|m r IH]; intros snips s0 H; cbn [fold_left].
+  - exists s0. split; [exact H|split; [reflexivity|lia]].
+  - match goal with |- context [fold_left ?f r ?acc] => set (acc0 := acc) end.
+    assert (M : exists s1, In s1 acc0 /\ fst s1 = fst s0 /\ snd s0 <= snd s1).
+    { unfold acc0. destruct ((b_base m =? fst blk) && _).
+      - apply put_snippet_mono, H.
+      - exists s0. split; [exact H|split; [reflexivity|lia]]. }
+    destruct M as (s1 & A & B & C). destruct (IH _ _ A) as (s2 & D & E & F).
+    exists s2. split; [exact D|split; [congruence|lia]].
+Qed.
+
+Lemma collect_covers : forall ctx blk ms snips m, In m ms -> in_block blk m ->
+  exists s, In s (collect_snippets ctx blk ms snips) /\ covers s m = true.
+Proof.
+  intros ctx blk ms. unfold collect_snippets. induction ms as [|x r IH]; intros snips m H B; [contradiction|].
+  cbn [fold_left]. destruct H as [H|H].
+  - subst x. destruct B as (B1 & B2 & B3 & B4).
+    assert (C : (b_base m =? fst blk) && (if snippet_filter_checks_end then b_end m <=? fst blk + snd blk else true) = true).
+    { apply andb_true_iff. split; [apply N.eqb_eq; exact B1|]. destruct snippet_filter_checks_end; [apply N.leb_le; exact B4|reflexivity]. }
+    rewrite C.
+    set (cs := N.max (b_start m - ctx) (fst blk)). set (ce := N.min (b_end m + ctx) (fst blk + snd blk)).
+    destruct (put_snippet_has (cs, ce - cs) snips) as (s1 & A1 & A2 & A3).
+    destruct (collect_mono ctx blk r _ _ A1) as (s2 & D & E & F). unfold collect_snippets in D.
+    exists s2. split; [exact D|]. unfold covers. cbn in A2, A3. apply andb_true_iff. split; apply N.leb_le; unfold cs, ce in *; lia.
+  - apply IH; assumption.
+Qed.
+
+(* C14: after any sequence of blocks (any order, overlaps), every listed match
+   is, as a whole, a match found in one of the blocks (its recorded base is the
+   base of a block that contains the whole range), and a snippet that covers it
+   has been stored: Match::data() finds its bytes *)
+Theorem listed_matches_have_block_and_data : forall ctx bs,
+  (forall b, In b bs -> found_in_block b) ->
+  forall m, In m (fst (scan_blocks_b ctx bs)) ->
+    (exists b, In b bs /\ in_block (fst b) m) /\
+    (exists s, In s (snd (scan_blocks_b ctx bs)) /\ covers s m = true).
+Proof.
+  intros ctx bs F. unfold scan_blocks_b.
+  assert (G : forall st,
+    (forall m, In m (fst st) -> (exists b, In b bs /\ in_block (fst b) m) /\ (exists s, In s (snd st) /\ covers s m = true)) ->
+    forall l, incl l bs ->
+    forall m, In m (fst (fold_left (scan_block_b ctx) l st)) ->
+      (exists b, In b bs /\ in_block (fst b) m) /\
+      (exists s, In s (snd (fold_left (scan_block_b ctx) l st)) /\ covers s m = true)).
+  { intros st Hst l. revert st Hst. induction l as [|b r IH]; intros st Hst I m H; cbn [fold_left] in *.
+    - apply Hst, H.
+    - apply (IH (scan_block_b ctx st b)); [|intros x Hx; apply I; right; exact Hx|exact H].
+      clear H m. intros m H. unfold scan_block_b in *. cbn [fst snd] in *.
+      set (ms := fold_left (fun acc f => add_b (snd f) (fst (fst b), fst (fst f), snd (fst f)) acc) (snd b) (fst st)) in *.
+      destruct (fold_add_b_in (fst b) (snd b) (fst st) m H) as [A|(f & Ff & E)].
+      + destruct (Hst _ A) as [P (s & S1 & S2)]. split; [exact P|].
+        destruct (collect_mono ctx (fst b) ms (snd st) s S1) as (s1 & D & E & L).
+        exists s1. split; [exact D|]. eapply covers_mono; eassumption.
+      + assert (Bb : In b bs) by (apply I; left; reflexivity).
+        assert (IB : in_block (fst b) m).
+        { destruct (F b Bb f Ff) as (X1 & X2 & X3). subst m. unfold in_block, b_base, b_start, b_end. cbn. repeat split; assumption. }
+        split; [exists b; split; assumption|].
+        apply collect_covers; assumption. }
+  intros m H. apply (G ([], []) (fun m (K : In m []) => match K with end) bs (incl_refl _) m H).
+Qed.
+
+Example add_b_example :
+  (* /abc+/ : blocks (10,"abc") (20,"abc") (8,"..abccc"): the match at 10 found again, longer, by the binary-search arm *)
+  scan_blocks_b 0 [((10, 3), [(10, 13, true)]); ((20, 3), [(20, 23, true)]); ((8, 7), [(10, 15, true)])]
+  = ([(8, 10, 15); (20, 20, 23)], [(10, 5); (20, 3)]).
+Proof. vm_compute. reflexivity. Qed.
+
 Example blocks_example :
   let keep := fun a b : mtch => if m_len a <? m_len b then b else a in
   let scan_one := fun d : list N => match d with [1; 2; 3] => [(0, 2, 0); (1, 2, 0)] | [2; 3] => [(0, 2, 0)] | _ => [] end in
